@@ -3,6 +3,6 @@
 ID=$1; P=$2
 S=$(mktemp -d /var/tmp/seed.XXXXXX)
 mkdir -p $S/src && cp -r /repo/src/fdtdx $S/src/
-if ! patch -s -p1 -d $S < "$P" >/dev/null 2>&1; then echo "SEED: patch does not apply"; rm -rf $S; exit 3; fi
+if ! patch -s -p1 -F0 -d $S < "$P" >/dev/null 2>&1; then echo "SEED: patch does not apply"; rm -rf $S; exit 3; fi
 cd /verif && VERIF_EVIDENCE_DIR=$S/ev ./check $ID --repo $S ${3:+--tier $3} | grep -E "^(VIOLATION|OK|ANALYSIS-ERROR|KNOWN)|^  rule" | cut -c1-260 | head -${LINES_OUT:-8}
 rm -rf $S
